@@ -34,6 +34,7 @@ from vlib.val import line, Word, is_err
 from vlib.compare import diff, Err
 
 ID = 'C15'
+PYOBJECT_METHODS = ['section', 'corners']   # splineobject.py methods re-translated and proved equal to the hand model each run
 PYOVERRIDE_METHODS = ['Surface.const_par_curve']   # Curve/Surface overrides re-translated and proved equal to the hand model each run
 RTOL = 1e-9
 ATOL = 1e-10
